@@ -316,7 +316,8 @@ loop { let permit = acquire(sem).await?; let number = next; next = next + 1;
                engine_manager.wait_until_persisted(ctx, number).await } }                      // then frees the permit
 ```
 The fetcher is an environment of the queue: it emits `spawnReq` / `cancelReq`. Its state is `next`, the free permits
-and the per-number task phase. -/
+and the per-number task phase. Cancelling the scope of a request that has already returned `Ok(())` does nothing; the
+driver therefore skips a `cancelReq` that `step?` refuses because the request is gone. -/
 
 inductive TaskSt
   /-- inside the inner scope: request running, waiting for `wait_until_queued` -/
